@@ -368,7 +368,8 @@ func init() {
 		Gen: func(t *T) {
 			for i := 0; i < t.Scale(40, 600); i++ {
 				ew := []int{150, 400, 1200}[t.R.Intn(3)]
-				hooks := [][]string{{}, {"1"}, {"1", "40"}, {"30", fmt.Sprint(ew + 500)}, {"5", fmt.Sprint(ew + 2500)}}[t.R.Intn(5)]
+				hooks := [][]string{{}, {"1"}, {"1", "40"}, {"30", fmt.Sprint(ew + 500)}, {"5", fmt.Sprint(ew + 2500)},
+					{fmt.Sprint(ew + 500), "30"}, {"40", "40", "40"}}[t.R.Intn(7)]
 				t.Do(In{Nn(t.R.Intn(1 << 30)), Nn(t.R.Intn(2)), Nn(ew), Nn(1 + t.R.Intn(4)), S(strings.Join(hooks, ","))}, true)
 			}
 			// directed: a hook that ignores its context and outlives the exit wait time, on both transports
@@ -381,6 +382,12 @@ func init() {
 			t.Do(In{Nn(9), Nn(0), Nn(1200), Nn(0), S("200")}, true)
 			t.Do(In{Nn(10), Nn(1), Nn(1200), Nn(0), S("1,250")}, true)
 			t.Do(In{Nn(11), Nn(0), Nn(1200), Nn(1), S("120")}, true)
+			// directed: hooks run side by side — a hook that outlives the exit wait time does not keep a later one from
+			// starting, and hooks that each fit into the exit wait time all finish within it
+			t.Do(In{Nn(12), Nn(0), Nn(150), Nn(1), S("2650,5")}, true)
+			t.Do(In{Nn(13), Nn(1), Nn(400), Nn(0), S("900,1,1")}, true)
+			t.Do(In{Nn(14), Nn(0), Nn(1200), Nn(0), S("500,500,500")}, true)
+			t.Do(In{Nn(15), Nn(1), Nn(1200), Nn(2), S("450,450,450,450")}, true)
 		}})
 }
 
